@@ -137,6 +137,37 @@ fn faults(seed: &[u8], double: bool) -> Vec<Vec<u8>> {
             }
         }
     }
+    // every octet replaced by, and at every position inserted, the varint of a boundary number: a length or
+    // a value at the top of the 64 / 63 / 32 / 31 bit ranges (sums with an offset overflow there)
+    let varint = |mut v: u64| {
+        let mut o = vec![];
+        loop {
+            let b = (v & 0x7f) as u8;
+            v >>= 7;
+            if v == 0 {
+                o.push(b);
+                return o;
+            }
+            o.push(b | 0x80);
+        }
+    };
+    let mut numbers: Vec<u64> = vec![1 << 63, (1 << 63) - 1, (1 << 63) + 1, 1 << 32, (1 << 32) - 1, 1 << 31, (1 << 31) - 1, 1 << 62, 1 << 56];
+    for k in 0..=24u64 {
+        numbers.push(u64::MAX - k);
+    }
+    for i in 0..=seed.len() {
+        for n in &numbers {
+            let v = varint(*n);
+            let mut b = seed.to_vec();
+            b.splice(i..i, v.iter().copied());
+            out.push(b);
+            if i < seed.len() {
+                let mut b = seed.to_vec();
+                b.splice(i..=i, v.iter().copied());
+                out.push(b);
+            }
+        }
+    }
     if double && seed.len() <= 8 {
         let firsts = single(seed);
         for f in firsts {
@@ -230,7 +261,7 @@ pub fn run(args: &Args) -> ! {
         cov.insert(k.clone(), json!(n));
     }
     cov.insert("distinct_nontrivial".into(), json!(agg.counters.get("nontrivial").copied().unwrap_or(0)));
-    cov.insert("rule".into(), json!("protobuf reader: for every type of the protobuf zoo: every byte string of <= 1 octet, every string of 2 (thorough: 3) octets over a 20-octet alphabet of tags, wire types, lengths and continuation octets, and every single (thorough: double on seeds <= 8 octets) fault - bit flip, truncation, octet deletion, insertion of 6 octet values at every position, every window of 1/2/4/8 octets overwritten with 10 integer boundary values in both byte orders - of up to 2 (6) valid encodings: the read returns Ok or Err, does not panic, the worker process does not die or hang, and no allocation exceeds 1 MiB + 256 x input length (single request or peak growth; an Err of the subject carries a resolved backtrace)"));
+    cov.insert("rule".into(), json!("protobuf reader: for every type of the protobuf zoo: every byte string of <= 1 octet, every string of 2 (thorough: 3) octets over a 20-octet alphabet of tags, wire types, lengths and continuation octets, and every single (thorough: double on seeds <= 8 octets) fault - bit flip, truncation, octet deletion, insertion of 6 octet values at every position, every window of 1/2/4/8 octets overwritten with 10 integer boundary values in both byte orders, every octet replaced by and at every position inserted the varint of 34 boundary numbers (2^64-1-k for k <= 24, around 2^63, 2^62, 2^56, 2^32, 2^31) - of up to 2 (6) valid encodings: the read returns Ok or Err, does not panic, the worker process does not die or hang, and no allocation exceeds 1 MiB + 256 x input length (single request or peak growth; an Err of the subject carries a resolved backtrace)"));
     report.finish(cov, vec![])
 }
 
